@@ -10,7 +10,7 @@ class Variant:
     def __init__(self, comp, alloc, hw=None, ports=None, entry='main'):
         self.comp = comp
         self.layout = Layout(comp, alloc)
-        funcs = {f: comp.funcs[f]['lines'] for f in comp.order if comp.funcs[f]['has_code']}
+        funcs = {f: comp.funcs[f]['lines'] for f in comp.order if comp.funcs[f]['has_code'] and not comp.funcs[f]['inline']}
         self.prog = Program(funcs, self.layout.sym, entry=entry)
         self.hw, self.ports = hw, ports
 
@@ -103,9 +103,21 @@ class Session:
         return self.runs[key]
 
     # ------------------------------------------------------------------ comparison
-    def compare(self, va, vb, names, events=False, extra_obs=None):
-        """names: observable variable names. Returns Outcome."""
-        fa, ha, _ = self.run(va)
+    def run_ref(self, var, prog, mode, hw_names=None):
+        """reference semantics of cast.Prog over the layout of var. Returns (finals, bound_hits)."""
+        from refsem import Ref, RState
+        self.assume_ptrs(var)
+        s0 = self.init_state(var)
+        if hw_names: prog.hw_names = hw_names
+        r = Ref(prog, var.layout, self, mode=mode, max_iters=self.max_back, max_paths=self.max_paths,
+                hw=set(hw_names.values()) if hw_names else None)
+        outs = r.run(RState(s0.M, s0.X, s0.Y))
+        return outs, r.bound_hits
+
+    def compare(self, va, vb, names, events=False, runs_a=None):
+        """names: observable variable names. Returns Outcome. runs_a: precomputed (finals, hits) standing for va (reference)"""
+        if runs_a is not None: fa, ha = runs_a
+        else: fa, ha, _ = self.run(va)
         fb, hb, _ = self.run(vb)
         k = z3.BitVec('kptr', 16)
         npairs = 0
